@@ -19,6 +19,14 @@ CLAIMS = {
   text="Deductive proof that SearchCriteria.And yields the intersection field by field: for every size/date the combined Larger/Smaller/Since/Before/SentSince/SentBefore bound matches iff both operands' bounds match (unset = zero handled), every list field becomes old ++ other (length and element-wise, unbounded lengths), ModSeq is carried over / tightened; intersectSince/intersectBefore proved against the date matcher for all instants.",
   note="time.Time modelled as an opaque instant with IsZero/Before/After as a strict total order (assumed stdlib contract); operands must not share list backing arrays (precondition noListAliasing). The server parser's key-order independence and message.search's use of the semantics are not yet under contract.",
   design="§6 C19"),
+ "C11": dict(
+  text="Deductive proof of the sequential, input-dependent part: for every method of imapclient.Client except read and Close (all response parsers and handlers) and for all decoder outcomes (= all server byte streams): no index/slice-bounds violation, failed type assertion, division by zero or reachable explicit panic; message sequence numbers handed to handleFetch/handleExpunge are non-zero and every number added to a SEARCH result set is non-zero (so delivered result sets are static and SearchData.AllSeqNums/AllUIDs cannot panic on them); Range.append (enumeration of result sets) terminates at the uint32 boundary (shared with C15).",
+  note="Nil-dereference freedom not claimed. Three type assertions that follow findPendingCmdFunc with a type-testing predicate and three panics guarding API misuse / stdlib contracts are assumed with the reason stated in the contract file. Not covered: recursion depth of readBody/readThreadList, ESEARCH/COPYUID dynamic-set rejection, time/memory growth, the reader goroutine's recover, accessor methods other than AllSeqNums/AllUIDs.",
+  design="§6 C11"),
+ "C12": dict(
+  text="Deductive proof that the client's mirror handlers update exactly the field the response names, from an arbitrary client state: handleExists sets only the message count, handleExpunge decrements only the count (not below zero), handleFlags replaces only the flag list (permanent flags, count and name unchanged), each only in the selected state and leaving the connection state unchanged; setState clears the summary exactly when leaving the selected state.",
+  note="Object invariant assumed at entry: state == Selected <=> mailbox != nil. Mutexes are no-ops. Not covered: routing of untagged data among pending commands, exactly-once completion (readResponseTagged/completeCommand), PERMANENTFLAGS/CLOSED branches, interleavings with beginCommand (schedules).",
+  design="§6 C12"),
  "C15": dict(
   text="Deductive proof (govc: weakest-precondition VCs over go/ssa of the real code, contracts in internal/imapnum/contracts_verif.go, discharged by z3/cvc5) that Range.Contains/Less/Merge equal their mathematical specification for all uint32 inputs incl. 2^32-1 and '*', that Set.search/Contains/Dynamic are correct on every canonical set (unbounded length), and that Range.append terminates and yields exactly the members in ascending order.",
   note="Trusted: go/ssa + govc translation, solvers. Slice parameters viewed at offset 0; signed int arithmetic mathematical where no overflow obligation is generated. insert/AddRange/Parse/String not yet under contract (listed in evidence as not covered).",
